@@ -572,3 +572,15 @@ agraph (float[2] x, bool c) => (float[2] y)
 
 
 CASES["pipeline_names"] = case_pipeline_names
+
+
+def case_literal_rank():
+    """pattern literals (x*1, x+0, x/1 ...) against one-element constants of rank 1 and 2 with a rank-0 x: broadcasting changes the shape"""
+    bad = 0
+    for opn, c in (("Mul", [1.0]), ("Add", [0.0]), ("Div", [1.0]), ("Mul", [[1.0]]), ("Sub", [0.0])):
+        m = _model([_c("c", c), helper.make_node(opn, ["x", "c"], ["y"])], [vi("x", TensorProto.FLOAT, [])], [vi("y", TensorProto.FLOAT, None)])
+        bad += check_rewrite(m, [{"x": np.array(3.0, np.float32)}], f"{opn}(x: scalar, c={c})")
+    return bad
+
+
+CASES["literal_rank"] = case_literal_rank
